@@ -1,31 +1,34 @@
 #!/venv/bin/python
 """apply each /verif/seeded/*/patch.diff to /repo, run the quick checks, undo; record who detects what.
 usage: run_seeds.py [seed-id-substring ...]"""
-import json, pathlib, subprocess, sys
+import json, os, pathlib, subprocess, sys
+REPO = os.environ.get("CORPUS_REPO", "/repo")  # a scratch worktree may be given instead of /repo
+OUT = f"/tmp/seedrun.{os.getpid()}.out"
+ENV = f"OFXTOOLS_VERIF_REPO={REPO} SA_NO_EVIDENCE={1 if REPO != '/repo' else 0} "
 ROOT = pathlib.Path("/verif/seeded")
 man = json.load(open("/verif/MANIFEST.json"))
 checks = {c["property_id"]: c["quick_cmd"] for c in man["checks"]}
 def sh(cmd): return subprocess.run(cmd, shell=True, capture_output=True, text=True)
-assert sh("git -C /repo status --porcelain -- ofxtools").stdout.strip() == "", "/repo not clean"
+assert sh(f"git -C {REPO} status --porcelain -- ofxtools").stdout.strip() == "", f"{REPO} not clean"
 sel = sys.argv[1:]
 for d in sorted(ROOT.iterdir()):
     if not (d / "patch.diff").exists() or (sel and not any(s in d.name for s in sel)):
         continue
     meta = json.loads((d / "meta.json").read_text())
-    r = sh(f"git -C /repo apply {d/'patch.diff'}")
+    r = sh(f"git -C {REPO} apply {d/'patch.diff'}")
     if r.returncode != 0:
         print(d.name, "PATCH DOES NOT APPLY", r.stderr[:200]); continue
     try:
         det = {}
         for pid, cmd in checks.items():
-            rr = sh(cmd + " >/tmp/seedrun.out 2>&1; echo $?")
+            rr = sh(cmd.replace("cd /verif && ", "cd /verif && " + ENV) + f" >{OUT} 2>&1; echo $?")
             code = int(rr.stdout.strip().splitlines()[-1])
             if code != 0:
-                out = open("/tmp/seedrun.out").read()
+                out = open(OUT).read()
                 lines = [l.strip() for l in out.splitlines() if l.strip().startswith("ofxtools/") or "ANALYSIS-ERROR" in l]
                 det[pid] = {"exit": code, "reports": lines[:3]}
     finally:
-        sh("git -C /repo checkout -- .")
+        sh(f"git -C {REPO} checkout -- .")
     own = meta["property"]
     meta["detected_by"] = det
     meta["detected_by_own_property_check"] = bool(det.get(own, {}).get("exit") == 1) if own in checks else None
@@ -35,7 +38,8 @@ for d in sorted(ROOT.iterdir()):
     for k, v in det.items():
         for l in v["reports"][:1]:
             print("      ", k, l[:200])
-assert sh("git -C /repo status --porcelain -- ofxtools").stdout.strip() == "", "/repo not clean after run"
+assert sh(f"git -C {REPO} status --porcelain -- ofxtools").stdout.strip() == "", f"{REPO} not clean after run"
 # restore evidence written against patched trees
-for pid, cmd in checks.items():
-    sh(cmd)
+if REPO == "/repo":
+    for pid, cmd in checks.items():
+        sh(cmd)
